@@ -24,6 +24,7 @@ type Case struct {
 	Want              []string
 	TailTol           bool   // pattern ends with a greedy parameter and routing is not strict: the request's trailing slash may or may not belong to the value
 	Variant           string // base | case | addslash | pct | noise
+	Slashless         bool   `json:",omitempty"` // shape of repaired finding C03-d (see admissible)
 }
 
 type routeApp struct {
@@ -71,6 +72,9 @@ func checkOn(ra *routeApp, c Case) vk.Verdict {
 	ra.got = ra.got[:0]
 	vk.Do(ra.app, "GET", c.Path)
 	v := vk.Verdict{Classes: []string{"variant:" + c.Variant}}
+	if c.Slashless {
+		v.Classes = append(v.Classes, "slash-less literal text behind a greedy parameter (C03-d shape)")
+	}
 	if c.Expect == "match" {
 		if !ra.hit {
 			return vk.Failf("pattern %q (cs=%v strict=%v unesc=%v) must match path %q with values %q but the handler did not run",
@@ -213,7 +217,11 @@ func pool(kind byte) []string {
 
 // admissible implements the statement's rule: the filled path creates no additional occurrence of a literal that
 // follows a parameter (compared under the configured case folding).
-func admissible(toks []tok, vals []string, cs bool) (path string, ok bool) {
+//
+// slashless reports the shape of (repaired) finding C03-d: behind a greedy parameter, the slash-less spelling of a literal
+// whose trailing slash the pattern makes optional occurs additionally in the path, but not as that spelling (it is
+// followed by something other than a slash: "/ab" for the literal "/a/"). The statement admits such a path.
+func admissible(toks []tok, vals []string, cs bool) (path string, ok bool, slashless bool) {
 	var pb, skel strings.Builder
 	vi := 0
 	for _, t := range toks {
@@ -228,7 +236,7 @@ func admissible(toks []tok, vals []string, cs bool) (path string, ok bool) {
 	}
 	path = pb.String()
 	if strings.HasPrefix(path, "//") {
-		return path, false
+		return path, false, false
 	}
 	fold := func(s string) string {
 		if cs {
@@ -241,19 +249,24 @@ func admissible(toks []tok, vals []string, cs bool) (path string, ok bool) {
 		if t.Kind != 0 && j+1 < len(toks) {
 			L := fold(toks[j+1].Lit)
 			if countOverlap(fp, L) != countOverlap(fs, L) {
-				return path, false
+				return path, false, false
 			}
 			// where the pattern makes the literal's trailing slash optional (end of the pattern, or in front of an optional
 			// parameter) the literal has a second spelling without that slash; it must not occur additionally either
 			if len(L) > 1 && strings.HasSuffix(L, "/") && (j+2 == len(toks) || toks[j+2].Kind == '?' || toks[j+2].Kind == '*') {
+				// (only where it can be that spelling: at the end of the path or in front of a slash - "/ab" is not a
+				// spelling of the literal "/a/")
 				T := strings.TrimRight(L, "/")
-				if T != "" && countOverlap(fp, T) != countOverlap(fs, T) {
-					return path, false
+				if T != "" && countBounded(fp, T) != countBounded(fs, T) {
+					return path, false, false
+				}
+				if T != "" && (t.Kind == '*' || t.Kind == '+') && countOverlap(fp, T) != countOverlap(fs, T) {
+					slashless = true
 				}
 			}
 		}
 	}
-	return path, true
+	return path, true, slashless
 }
 
 var noise = []string{"/", "/a", "/ab", "/abc", "/abcd", "/a/", "/x", "/x/y", "/a-x", "/a.x", "/A", "/a/x/", "/ab/", "/-", "/.", "/a-", "/x-a", "/a/x/y/z"}
@@ -312,7 +325,7 @@ func casesFor(toks []tok, cs, strict, unesc bool, emit func(Case)) {
 			}
 			return
 		}
-		path, ok := admissible(toks, vals, cs)
+		path, ok, slashless := admissible(toks, vals, cs)
 		if !ok {
 			return
 		}
@@ -320,6 +333,7 @@ func casesFor(toks []tok, cs, strict, unesc bool, emit func(Case)) {
 			return // the whole value is the trailing slash that non-strict routing ignores: the statement cannot require both
 		}
 		c := base
+		c.Slashless = slashless
 		c.Expect, c.Path, c.Want, c.Variant = "match", path, append([]string(nil), vals...), "base"
 		c.TailTol = tailGreedy && !strict && strings.HasSuffix(path, "/")
 		emit(c)
@@ -420,7 +434,7 @@ func TestExhaustive(t *testing.T) {
 	}
 }
 
-func classify(c Case, fail string) string { return "" }
+func classify(c Case, fail string) string { return "" } // no open finding (C03-d, the Slashless shape, is repaired)
 
 // ---------------------------------------------------------------------------------------------------------
 // random part: longer patterns, escaped specials in literals, multi-byte runes, values with spaces
@@ -491,7 +505,8 @@ func genRandom(t *rapid.T) Case {
 		}
 		vals = append(vals, v)
 	}
-	p, ok := admissible(toks, vals, c.CS)
+	p, ok, slashless := admissible(toks, vals, c.CS)
+	c.Slashless = slashless
 	if !ok || strings.ContainsAny(p, "?#") {
 		c.Expect = "skip"
 		return c
@@ -533,6 +548,17 @@ func TestRandom(t *testing.T) { propRoundTrip.Run(t) }
 func FuzzRandom(f *testing.F) { propRoundTrip.Fuzz(f) }
 
 // countOverlap counts all (also overlapping) occurrences of sub in s.
+// countBounded counts the occurrences of sub that end the string or are followed by a slash or a parameter position.
+func countBounded(s, sub string) int {
+	n := 0
+	for i := 0; i+len(sub) <= len(s); i++ {
+		if s[i:i+len(sub)] == sub && (i+len(sub) == len(s) || s[i+len(sub)] == '/' || s[i+len(sub)] == 0) {
+			n++
+		}
+	}
+	return n
+}
+
 func countOverlap(s, sub string) int {
 	if sub == "" {
 		return 0
